@@ -38,7 +38,7 @@ def need(binres, run):
 # C11 - space-filling-curve index algebra
 # =====================================================================================================
 GRID_INVS = ["Bijection", "ParentContains", "ChildCodeDistinct", "ChildCodeIsOctant", "CodeRoundTrip", "ILSymmetric",
-             "NeighSymmetric", "PeriodicCardinality", "ListsAreGeometric", "HalfFilterAntisymmetric", "PartitionLemma", "Emit"]
+             "NeighSymmetric", "PeriodicCardinality", "ListsAreGeometric", "HalfFilterAntisymmetric", "PartitionLemma", "ShiftIsImage", "Emit"]
 
 
 def grid_records(lines):
@@ -46,7 +46,7 @@ def grid_records(lines):
     for r in lines:
         if r.get("k") != "cell":
             continue
-        v = [r["l"], r["m"]] + list(r["c"]) + [r["p"], r["cc"], len(r["il"])] + sorted(r["il"]) + [len(r["nb"])] + sorted(r["nb"])
+        v = [r["l"], r["m"]] + list(r["c"]) + [r["p"], r["cc"], len(r["il"])] + sorted(r["il"]) + [len(r["nb"])] + sorted(r["nb"]) + [len(r.get("sh", []))] + sorted(r.get("sh", []))
         out.append(" ".join(map(str, v)))
     return "\n".join(out) + "\n"
 
@@ -164,6 +164,8 @@ def check_c11(run):
             s["il"] = s["il"][:6]
             run.sample({"config": name, "cell": s})
         for key, text, rp in viol:
+            if key.startswith("Shift:"):
+                continue        # the periodic shifter belongs to C10
             replay = run.write_replay(key, dict(rp or {}, key=key, text=text)) if rp else None
             run.violation(key, text, replay)
     run.coverage["distinct_nontrivial"] = total_cells
@@ -200,7 +202,7 @@ KINDS = {
     "C07": ["Groups", "GroupHeader", "LeafGroupsAligned", "Crash"],
     "C08": ["Elem", "Digest.mp", "Digest.lo", "Digest.rhs", "Crash"],
     "C09": ["Digest.mp", "Digest.lo", "Digest.rhs", "ExactlyOnce", "SourcesUntouched", "Elem", "Arg", "Groups", "Crash"],
-    "C10": ["Digest.mp", "Digest.lo", "Digest.rhs", "Elem", "Arg", "IntervalMatchesApi", "WriteSets", "Crash"],
+    "C10": ["Digest.mp", "Digest.lo", "Digest.rhs", "Elem", "Arg", "Shift", "IntervalMatchesApi", "WriteSets", "Crash"],
     "C12": ["WriteSets", "NothingAboveStopLevel", "Digest.mp", "Digest.lo", "Digest.rhs", "Crash"],
     "C13": ["RebuildPreserves", "Groups", "GroupHeader", "LeafGroupsAligned", "StoredOnce", "InRightLeaf", "DataBitExact", "ZeroInit",
             "Digest.mp", "Digest.lo", "Digest.rhs", "Crash"],
@@ -870,13 +872,23 @@ def check_c10(run):
         cs.append(("per-3d-h2", fmm_constants(3, 2, [0, 3, 5, 7], periodic=True, maxparts=2, stops=(1,), bss=(1, 20), hists=("ptop",), aboves=(-1, 0))))
         cs.append(("per-tsm-2d-h2", fmm_constants(2, 2, range(4), periodic=True, mode="tsm", maxparts=2, stops=(1,), bss=(1, 2), hists=("ptop",), aboves=(-1, 0, 1))))
     run_fmm_configs(run, "C10", cs, cap=1024)
+    # the periodic shifter (src/utils/tbfperiodicshifter.hpp): Grid.tla's ImageOf for every neighbour of every leaf of periodic grids
+    shcells = [(1, 5, True, "morton"), (2, 4, True, "morton"), (3, 3, True, "morton"), (4, 2, True, "morton")] if q else \
+              [(1, 8, True, "morton"), (2, 5, True, "morton"), (3, 4, True, "morton"), (4, 3, True, "morton"), (3, 2, True, "morton"), (1, 2, True, "morton")]
+    with ThreadPoolExecutor(max_workers=4) as ex:
+        for name, ncell, summary, viol, sample in ex.map(lambda c: grid_one(run, *c), shcells):
+            run.coverage["traces_validated_against_impl"] += ncell
+            run.coverage["evaluations"] += summary.get("checks", 0)
+            for key, text, rp in viol:
+                if key.startswith("Shift:") or key.endswith("-spec"):
+                    run.violation(key, text, run.write_replay(key, dict(rp or {}, key=key, text=text)) if rp else None)
     # the in-box part through the OpenMP executors under the mock-runtime schedules (the top tree itself is sequential)
     for name, consts in [("omp-per-1d-h3", fmm_constants(1, 3, range(4), periodic=True, maxparts=3, stops=(1,), bss=(1, 2, 20), hists=("ptop", "ptopb"), aboves=(-1, 0, 2))),
                          ("omp-per-2d-h2", fmm_constants(2, 2, range(4), periodic=True, maxparts=2, stops=(1,), bss=(1, 2), hists=("ptop",), aboves=(-1, 1))),
                          ("omp-per-tsm-1d-h3", fmm_constants(1, 3, range(4), periodic=True, mode="tsm", maxparts=2, stops=(1,), bss=(1, 2), hists=("ptop",), aboves=(0, 1)))]:
         pairs, mism, _ = omp_campaign(run, "C10-" + name, consts, run.tier, graphs=0, cap=1024)
         report_mismatches(run, "C10", "C10-" + name, pairs, [(k, re.sub(r"-(immediate|deferred|tlc)-.*$", "", key), "%s [%s]" % (t, key)) for k, key, t in mism],
-                          ["SameAsSequential", "Covered", "Crash", "Arg", "KernelPerWorker"])
+                          ["SameAsSequential", "Covered", "Crash", "Arg", "Shift", "KernelPerWorker"])
     run.coverage["rule"] = ("one case = one (occupancy, block size, grouping mode, number of extra levels) of the documented periodic sequence (upward pass with working level 1, "
                             "periodic top tree, transfer, downward pass) explored by TLC with image-carrying contributions: ImagesExactlyOnce requires exactly one contribution from "
                             "every particle image of the repetition interval derived from the top tree's transfer windows (none from itself in the central box), GeometricConsistency "
